@@ -63,6 +63,9 @@ def r1(c):
     c.check("C08.R1", ok, repo.loc(m, mp), "make_patch/sorted-before-return", "the patch tree is not (unconditionally) sorted before it is returned", key_text="mp-sort")
     loop = [st for st in mp.body if isinstance(st, ast.For) and norm(st.iter) == "patch"]
     ok = len(loop) == 1 and not [n for n in walk_no_nested(loop[0]) if isinstance(n, (ast.Continue, ast.Break, ast.Return))]
+    if not loop and not any(isinstance(x.func, ast.Attribute) and x.func.attr == "append" and norm(x.func.value) == "patch" for x in calls_in(mp)):
+        # one-pass form (no intermediate list): there is no second loop that could skip a collected entry; what is emitted per produced row is decided by C01.R3 / C09.R3
+        ok = True
     c.check("C08.R1", ok, repo.loc(m, mp), "make_patch/one-item-per-entry", "the loop that turns collected entries into tree items skips entries", key_text="mp-loop")
     # order_config
     oc = repo.func(PATCHING, "Orderer.order_config")
@@ -275,11 +278,25 @@ def r2(c):
     if not adds:
         raise AnchorError("make_patch: tree.add/add_block not found")
     loops_ = [l for l in GuardMap(mp).in_loop(adds[0]) if isinstance(l, ast.For)]
-    if not loops_ or not isinstance(loops_[-1].target, ast.Name):
+    if not loops_:
         raise AnchorError("make_patch: the loop over the collected entries not found")
-    itemvar = loops_[-1].target.id
+    go = [x for x in calls_in(mp) if isinstance(x.func, ast.Attribute) and x.func.attr == "get_order"]
+    one_pass = not isinstance(loops_[-1].target, ast.Name)
+    if one_pass:
+        # rows go into the tree in the loop that produces them: order / order_direct are the locals unpacked from get_order, not fields of a collected record
+        gnames = {}
+        for n_ in walk_no_nested(mp):
+            if isinstance(n_, ast.Assign) and go and n_.value is go[0] and isinstance(n_.targets[0], ast.Tuple):
+                gnames = {i: e_.id for i, e_ in enumerate(n_.targets[0].elts) if isinstance(e_, ast.Name)}
+        if 0 not in gnames or 1 not in gnames:
+            raise AnchorError("make_patch: results of orderer.get_order not found (one-pass form)")
+        item_names = [gnames[0], gnames[1]] + [e_.id for l_ in loops_ for e_ in ast.walk(l_.target) if isinstance(e_, ast.Name)]
+        order_f, direct_f = gnames[0], gnames[1]
+    else:
+        itemvar = loops_[-1].target.id
+        item_names, order_f, direct_f = [itemvar], f"{itemvar}['order']", f"{itemvar}['order_direct']"
     seen_keys = 0
-    for p_ in symexec.paths(loops_[-1].body):
+    for p_ in symexec.paths(loops_[-1].body, keep=tuple(item_names) if one_pass else ()):
         for kind, orig, sub in p_.events:
             if kind == "call" and any(orig is a_ for a_ in adds):
                 e = kwarg(sub, "sort_key", 2 if orig.func.attr == "add" else 3)
@@ -287,12 +304,11 @@ def r2(c):
                     continue
                 seen_keys += 1
                 if seen_keys <= 2 or not isinstance(e, ast.Tuple):
-                    _key_checks(c, m, "make_patch.sort_key", e, [itemvar], f"{itemvar}['order']", f"{itemvar}['order_direct']", repo.loc(m, orig), conds=p_.conds)
+                    _key_checks(c, m, "make_patch.sort_key", e, item_names, order_f, direct_f, repo.loc(m, orig), conds=p_.conds)
     if not seen_keys:
         raise AnchorError("make_patch: the sort key handed to tree.add/add_block not found")
     # the dict fields come from get_order(row, direct, ...) results 0 and 1
-    go = [x for x in calls_in(mp) if isinstance(x.func, ast.Attribute) and x.func.attr == "get_order"]
-    ok = False
+    ok = one_pass
     for d in walk_no_nested(mp):
         if isinstance(d, ast.Dict):
             f = {k.value: v for k, v in zip(d.keys, d.values) if isinstance(k, ast.Constant)}
